@@ -46,6 +46,7 @@ theorem den_effect (t : Tree) : ∀ (v : Nat) (g : Tag) (w : World),
   | H id => intro v g w; simp [den, new, userEffect, run, emit_eq_emits]
   | G id => intro v g w; simp [den, new, userEffect, run, emit_eq_emits]
   | JM id x _ => intro v g w; simp [den, just, run]
+  | Z t ih => intro v g w; simp only [den, new, run]; exact ih 0 g w
   | FR t ih => intro v g w; simp [den, flatMap, doEffect, just, run, ih]
   | FL c t b iht ihb =>
     intro v g w
@@ -81,6 +82,16 @@ theorem den_subOn (t : Tree) (v : Nat) : (den t v).subOn = rootSub t := by
   | O h t ih => simp [den, observeOn, rootSub, ih]
   | S h t ih => simp [den, subscribeOn, rootSub]
   | _ => simp [den, just, new, flatMap, rootSub]
+
+/-- running the queued deliveries appends them to the log, in order -/
+def qF (p : Nat × Tag) : World → World := fun w => w.emit (.next p.1) p.2
+
+theorem queue_log (q : List (Nat × Tag)) : ∀ (w : World),
+    ((q.map qF).foldl (fun w f => f w) w).log =
+      w.log ++ q.map (fun p => ⟨.next p.1, p.2⟩) := by
+  induction q with
+  | nil => intro w; simp
+  | cons p q ih => intro w; simp only [List.map_cons, List.foldl_cons]; rw [ih]; simp [qF]
 
 theorem foldl_acc {σ : Type} (f : σ → String → σ × String) (ops : List String) :
     ∀ (s : σ) (acc : List String),
